@@ -198,6 +198,10 @@ def depth3_chains(typ):
     return out
 
 
+import warnings as _warnings
+_warnings.simplefilter("ignore", SyntaxWarning)
+
+
 def all_expressions(level):
     """level 1: depth<=1; level 2: + parent/child pairs; level 3: + full binary products and depth-3 chains."""
     seen, out = set(), []
@@ -212,7 +216,7 @@ def all_expressions(level):
             for e in pool:
                 if e not in seen:
                     try:
-                        ast.parse(e, mode="eval")
+                        compile(e, "<grammar>", "eval")  # also rejects what only the symbol table refuses (walrus in an iterable)
                     except SyntaxError:
                         continue
                     seen.add(e)
